@@ -280,8 +280,6 @@ def load(modname: str):
     """modname relative to the curies package, e.g. 'api' or 'mapping_service.utils'."""
     if modname in _loaded:
         return _loaded[modname]
-    if modname == "mapping_service.rdflib_custom":
-        return stubs.RDFLIB_CUSTOM
     path, is_pkg = source_path(modname)
     src = path.read_text()
     tree = ast.parse(src, filename=str(path))
@@ -310,7 +308,7 @@ class SymModules:
 
     def __getattr__(self, name):
         key = {"utils": "mapping_service.utils", "msapi": "mapping_service.api", "rec": "reconciliation",
-               "disc": "discovery", "resolver": "resolver_service"}.get(name, name)
+               "disc": "discovery", "resolver": "resolver_service", "rdfc": "mapping_service.rdflib_custom"}.get(name, name)
         m = load(key)
         setattr(self, name, m)
         return m
@@ -326,7 +324,7 @@ class RealModules:
         if src not in sys.path:
             sys.path.insert(0, src)
         key = {"utils": "curies.mapping_service.utils", "msapi": "curies.mapping_service.api",
-               "rec": "curies.reconciliation", "disc": "curies.discovery", "resolver": "curies.resolver_service",
+               "rec": "curies.reconciliation", "rdfc": "curies.mapping_service.rdflib_custom", "disc": "curies.discovery", "resolver": "curies.resolver_service",
                "api": "curies.api", "w3c": "curies.w3c", "triples": "curies.triples"}.get(name, "curies." + name)
         m = importlib.import_module(key)
         if not str(getattr(m, "__file__", "")).startswith(str(REPO_SRC.parent)):
